@@ -193,6 +193,19 @@ def run(tier, seed, build=True):
                                        "files": {fn: common.b64(data) for fn, data in files}, "choices": choices, "expected_stdout": common.b64(expected)})
             res.sample({"config": name, "argv": cfg.args, "default_schedule_events": x0.trace.get("events"),
                         "decisions_in_default_schedule": len(x0.trace.get("decisions", []))})
+        # ---- many sources: more paths than any machine word has bits (PathIds 0..69), under the canonical schedules only
+        wide_files = [("w%02d.wtmp" % i, wt([(100 + i, 0, "W%d" % i)])) for i in range(70)]
+        cfgw, expw, _per = build_config(work, "wide70", wide_files, [], exec_timeout=180, step_limit=200000)
+        for pol in ("main-first", "workers-first", "workers-reverse", "sticky"):
+            xw = cfgw.run([], policy=pol)
+            res.count()
+            res.distinct(("wide70", pol))
+            ocw = xw.trace.get("outcome") if xw.trace else "no-trace"
+            if ocw != "completed" or xw.out != expw:
+                res.violation({"symptom": ocw if ocw != "completed" else "stdout-differs", "config": "wide70"},
+                              "70 sources under policy %s: outcome %s, stdout %s the reference merge" % (pol, ocw, "equals" if xw.out == expw else "differs from"),
+                              {"engine": "E-SCHED", "config": "wide70", "args": cfgw.args, "sources": cfgw.sources, "files": {fn: common.b64(d_) for fn, d_ in wide_files},
+                               "choices": xw.choices if ocw == "completed" else [], "policy": pol, "expected_stdout": common.b64(expw)})
     finally:
         shutil.rmtree(work, ignore_errors=True)
     res.coverage.update({
